@@ -630,24 +630,32 @@ pub fn c09(run: &mut Run) {
 pub struct C10Case {
     pub tl: TlDesc,
     pub others: Vec<TlDesc>,
+    /// earlier start_with calls that the final one must fully replace
+    #[serde(default)]
+    pub earlier: Vec<Vals>,
     pub v: Vals,
     pub times: Vec<TimeSpec>,
 }
 
 pub fn c10_strategy() -> impl Strategy<Value = C10Case> {
-    (tl_strategy(), prop::collection::vec(tl_strategy(), 0..=1), vals_strategy(), prop::collection::vec(timespec_strategy(), 16)).prop_map(|(tl, others, v, times)| {
+    (tl_strategy(), prop::collection::vec(tl_strategy(), 0..=1), prop_oneof![3 => Just(vec![]), 2 => prop::collection::vec(vals_strategy(), 1..=2)], vals_strategy(), prop::collection::vec(timespec_strategy(), 16)).prop_map(|(tl, others, earlier, v, times)| {
         let back = tl.uses_back() || others.iter().any(|o| o.uses_back());
-        C10Case { tl, others, v: sanitize_vals(v, back), times }
+        C10Case { tl, others, earlier: earlier.into_iter().map(|e| sanitize_vals(e, back)).collect(), v: sanitize_vals(v, back), times }
     })
 }
 
-pub const C10_LABELS: [&str; 8] = ["upto_delay", "first_stretch", "first_pass_beyond_first_stretch", "reverse_pass", "later_cycle", "ended", "v_differs_from_0pct", "near_boundary"];
+pub const C10_LABELS: [&str; 9] = ["upto_delay", "first_stretch", "first_pass_beyond_first_stretch", "reverse_pass", "later_cycle", "ended", "v_differs_from_0pct", "near_boundary", "after_earlier_start_with"];
 
 pub fn c10_judge(c: &C10Case, obs: &mut Obs) -> Result<(), String> {
     let model = ModelTl::new(&c.tl);
     let plain = c.tl.build();
     let mut sub = c.tl.build();
     let vp = P::from_vals(&c.v);
+    for e in &c.earlier {
+        // the latest start_with fully replaces earlier ones: the twin comparison below is unchanged
+        sub.start_with(&P::from_vals(e));
+    }
+    obs.label_if(8, !c.earlier.is_empty());
     sub.start_with(&vp);
     let tm = c.tl.timing;
     for ts in &c.times {
